@@ -435,7 +435,7 @@ func (s *Sched) enabledAlts(buf []Alt) []Alt {
 // partner that is enumerated from the other side (a send whose receiver is waiting).
 func rendezvousPending(s *Sched, t *Task, o *opSelect) bool {
 	for _, c := range o.cases {
-		if c.isSend() && hasPartner(s, t, c) {
+		if c.isSend() && hasPartner(s, t, o, c) {
 			return true
 		}
 	}
